@@ -143,11 +143,31 @@ pub fn dump_exports(vm: &mut KotoVm) -> J {
     J::Object(out)
 }
 
+/// Events recorded by the verification hooks, as compact JSON records.
+pub fn events_json(recorded: (Vec<koto_runtime::verif::Event>, usize, Vec<koto_runtime::verif::Event>)) -> J {
+    let (head, dropped, tail) = recorded;
+    let conv = |e: koto_runtime::verif::Event| {
+        json!({"e": e.name, "vm": e.vm, "d": e.depth, "r": e.regs, "b": e.base, "q": e.seqb,
+               "t": e.strb, "c": e.catches, "a": e.a, "x": e.b, "s": e.s})
+    };
+    let mut out: Vec<J> = head.into_iter().map(conv).collect();
+    if dropped > 0 || !tail.is_empty() {
+        out.push(json!({"e": "Gap", "vm": 0, "d": 0, "r": 0, "b": 0, "q": 0, "t": 0, "c": 0,
+                        "a": dropped as i64, "x": 0, "s": ""}));
+        out.extend(tail.into_iter().map(conv));
+    }
+    J::Array(out)
+}
+
 pub fn run_job(job: &J) -> J {
     let id = job.get("id").cloned().unwrap_or(J::Null);
     let src = job.get("src").and_then(|v| v.as_str()).unwrap_or("").to_string();
     let t0 = Instant::now();
     let job2 = job.clone();
+    let hooks = job.get("hooks").and_then(|v| v.as_bool()).unwrap_or(false);
+    if hooks {
+        koto_runtime::verif::start_with_limits(4000, 2000);
+    }
     let r = catch_unwind(AssertUnwindSafe(move || {
         let (mut vm, cap) = make_vm(&job2);
         let mut out = run_script(&mut vm, &job2, &src);
@@ -155,13 +175,19 @@ pub fn run_job(job: &J) -> J {
             out["exports"] = dump_exports(&mut vm);
         }
         out["stdout"] = J::String(cap.text());
+        let (depth, regs, base, seqb, strb) = vm.verif_state();
+        out["final_state"] = json!({"vm": vm.verif_id(), "d": depth, "r": regs, "b": base, "q": seqb, "t": strb});
         out
     }));
+    let events = if hooks { Some(koto_runtime::verif::take_with_gap()) } else { None };
     let mut out = match r {
         Ok(o) => o,
         Err(_) => json!({"status": "panic", "err_msg": take_panic().unwrap_or_default()}),
     };
     out["id"] = id;
     out["wall_ms"] = json!(t0.elapsed().as_millis() as u64);
+    if let Some(events) = events {
+        out["events"] = events_json(events);
+    }
     out
 }
